@@ -360,10 +360,89 @@ def emit(repo):
     o.append("Definition src_impl_ops_invocations : list (string * list string) := [")
     o.append(";\n".join(f"  ({_coq_str(f)}, [{'; '.join(_coq_str(a) for a in args)}])" for f, args in invs))
     o.append("].")
-    return "\n".join(o) + "\n", ents
+    rv, _rules = emit_rules(repo)
+    return "\n".join(o) + "\n" + rv, ents
 
 
 if __name__ == "__main__":
     import sys
     v, ents = emit(sys.argv[1] if len(sys.argv) > 1 else "/repo")
     print(v)
+
+
+# ----------------------------------------------------------------------------- type-level dimension rules
+RULE_RE = re.compile(r"\$quantities<\$\(\$crate::typenum::(\$?\w+)<(.*?)>(?:,\)\+|\),\+)([^>]*)>,(\w+),V>")
+
+
+def _norm_arg(a):
+    return a.replace("$crate::typenum::", "").replace("::$symbol", "")
+
+
+def dim_rules(repo):
+    """Every result type of the form Quantity<$quantities<$(typenum::ALIAS<ARGS>),+ [KIND]>, BASE, V> with the function that returns it."""
+    path = os.path.join(repo, "src", "system.rs")
+    with open(path, encoding="utf-8") as f:
+        toks = lex(f.read(), path)
+    n = len(toks)
+    regions = []
+    for i in range(n):
+        t = toks[i]
+        if t[0] == "id" and t[1] in ("autoconvert", "not_autoconvert") and i + 2 < n and toks[i + 1][:2] == ("punct", "!") and toks[i + 2][:2] == ("punct", "{"):
+            regions.append((i, _match(toks, i + 2, "{", "}"), "Auto" if t[1] == "autoconvert" else "NotAuto"))
+    out = []
+    i = 0
+    impl_stack = []
+    while i < n:
+        if toks[i][:2] == ("id", "impl") and i + 1 < n and (toks[i + 1][:2] == ("punct", "<") or toks[i + 1][0] == "id"):
+            j = i
+            while toks[j][:2] != ("punct", "{"):
+                j += 1
+            end = _match(toks, j, "{", "}")
+            header = _txt(toks[i:j])
+            m_ = re.search(r"(?:ops|cmp)::(\$?\w+)", header)
+            trait = m_.group(1) if m_ else ""
+            scalar_left = bool(re.search(r"for(f32|f64|V|\$\w+)where|<Quantity<D,U,V>>forV", header)) or "forV" in header.split("where")[0][-6:]
+            # type Output = ...;
+            k = j + 1
+            while k < end:
+                if toks[k][:2] == ("id", "type") and toks[k + 1][:2] == ("id", "Output"):
+                    e2 = k
+                    while toks[e2][:2] != ("punct", ";"):
+                        e2 += 1
+                    ty = _txt(toks[k + 3:e2])
+                    for m in RULE_RE.finditer(ty):
+                        fl = next((f2 for (s_, e_, f2) in regions if s_ <= i <= e_), "Always")
+                        out.append({"line": toks[k][2], "site": trait, "flavour": fl, "alias": m.group(1), "args": [_norm_arg(a) for a in m.group(2).split(",")],
+                                    "kind": m.group(3).strip(",") or "default", "base": m.group(4), "scalar_left": "Z0" in m.group(2)})
+                if toks[k][:2] == ("id", "fn"):
+                    name = toks[k + 1][1] if toks[k + 1][0] == "id" else "$" + toks[k + 2][1]
+                    p = k
+                    while toks[p][:2] != ("punct", "("):
+                        p += 1
+                    pe = _match(toks, p, "(", ")")
+                    b = pe
+                    while toks[b][:2] not in (("punct", "{"), ("id", "where")):
+                        b += 1
+                    ret = _txt(toks[pe + 1:b])
+                    for m in RULE_RE.finditer(ret):
+                        fl = next((f2 for (s_, e_, f2) in sorted(regions, key=lambda r: r[1] - r[0]) if s_ <= k <= e_), "Always")
+                        out.append({"line": toks[k][2], "site": name, "flavour": fl, "alias": m.group(1), "args": [_norm_arg(a) for a in m.group(2).split(",")],
+                                    "kind": m.group(3).strip(",") or "default", "base": m.group(4), "scalar_left": False})
+                    while toks[b][:2] != ("punct", "{"):
+                        b += 1
+                    k = _match(toks, b, "{", "}")
+                k += 1
+            i = end
+        i += 1
+    return out
+
+
+def emit_rules(repo):
+    rules = dim_rules(repo)
+    o = ["", "(* result types of the form Quantity<$quantities<$(typenum::ALIAS<ARGS>),+ [KIND]>, BASE, V> in src/system.rs *)",
+         "Definition src_dim_rules : list dim_rule := ["]
+    o.append(";\n".join(
+        f"  {{| dr_site := {_coq_str(r['site'])}; dr_flavour := {r['flavour']}; dr_alias := {_coq_str(r['alias'])}; dr_args := [{'; '.join(_coq_str(a) for a in r['args'])}]; "
+        f"dr_kind := {_coq_str(r['kind'])}; dr_base := {_coq_str(r['base'])} |}}" for r in rules))
+    o.append("].")
+    return "\n".join(o) + "\n", rules
